@@ -1153,6 +1153,14 @@ def fam_control(tier, seed, extra=()):
     c("repeat/value_arm_candidates_reevaluated", "f := (v: int, k: int) -> int { return match v { k, k + 1 => 1, => 0, } }; (f(3, 3), f(3, 9), f(10, 9), f(3, 2), f(3, 4))", (1, 0, 1, 1, 0))
     c("repeat/same_code_twice", "g := (v: int | string) -> int { r := match v { s: string => 1, 0 => 2, i: int => 3, }; return r }; h := (a: int | string, b: int | string) -> (int, int) { return (g(a), g(b)) }; "
       "(h(5, 0), h(0, 5), h(\"s\", 0), h(5, \"s\"))", ((3, 2), (2, 3), (1, 2), (3, 1)))
+    # run-time types of COMPOUND elements: arrays of arrays / tuples / structs whose inner types differ (all elements are of the same kind)
+    _RT = "a := [1]; b := [2.5]; "
+    c("runtime_type/array_of_arrays", _RT + "f := (x: [[int] | [float]]) -> int { return match x { v: [[int]] => 1, v: [[int] | [float]] => 2, } }; (f([a, b]), f([a, a]), f([b]), f([b, a]))", (2, 1, 2, 2))
+    c("runtime_type/array_of_arrays_ifset", _RT + "g := (x: [[int] | [float]]) -> int { if v: [[int]] = x { return 1 } return 2 }; (g([a, b]), g([a]), g([b, b]))", (2, 1, 2))
+    c("runtime_type/array_of_tuples", "f := (x: [(int, int | float)]) -> int { return match x { v: [(int, int)] => 1, => 2, } }; (f([(1, 2), (1, 2.5)]), f([(1, 2)]), f([(3, 0.5), (1, 2)]))", (2, 1, 2))
+    c("runtime_type/array_of_structs", "f := (x: [struct{k: int | string}]) -> int { return match x { v: [struct{k: int}] => 1, => 2, } }; (f([struct{k := 1}, struct{k := \"s\"}]), f([struct{k := 1}]))", (2, 1))
+    c("runtime_type/whileset_compound", _RT + "vals := [[a, a], [a, b], [b]]; i := mut 0; n := mut 0; while v: [[int]] = vals[*i] { n += 1; i += 1 } (*n, *i)", (1, 1))
+    c("runtime_type/nested_in_tuple", _RT + "f := (x: ([[int] | [float]], int)) -> int { return match x { v: ([[int]], int) => 1, => 2, } }; (f(([a, b], 0)), f(([a], 0)))", (2, 1))
     c("accept/union_value_flows", "f := (c: bool, v: int | string) -> int | string { return if c 1 else v }; (f(true, \"s\"), f(false, \"s\"))", (1, "s"))
     c("accept/bare_return_in_void_fn", "n := mut 0; f := (b: bool) { if b { return } n += 1 }; f(true); f(false); *n", 1)
     c("accept/return_void_value", "f := (b: bool) -> () | int { if b { return } return 1 }; (f(true), f(false))", (None, 1))
